@@ -29,7 +29,7 @@ def stmt_trees(maxnodes):
             return memo[key]
         out = []
         if n == 1:
-            out += ['g(@);', 'return @;', 'goto end;', ';', 'L1: g(@);', 'goto L1;', 'n = v ? n : @;']
+            out += ['g(@);', 'return @;', 'goto end;', ';', 'L1: g(@);', 'goto L1;', 'n = v ? n : @;', 'die();']
             if loop or sw:
                 out.append('break;')
             if loop:
@@ -70,7 +70,7 @@ def expr_trees(maxops):
         if k in memo:
             return memo[k]
         if k == 0:
-            out = ['n', 'g(@)', '0']
+            out = ['n', 'g(@)', '0', '(die(), @)']
         else:
             out = ['!(' + a + ')' for a in gen(k - 1)]
             for i in range(k):
@@ -99,7 +99,7 @@ def stmt_program(body):
         k[0] += 1
         return str(k[0])
     body = re.sub('@', num, body)
-    return 'int g(int);\nint f(int n, int v) {\n\tint i;\n\t%s\nend:\n\treturn n;\n}\n' % body
+    return 'int g(int);\n_Noreturn void die(void);\nint f(int n, int v) {\n\tint i;\n\t%s\nend:\n\treturn n;\n}\n' % body
 
 
 DATA_UNIT = r'''
